@@ -14,6 +14,9 @@ func TestDumpVariableProgram(t *testing.T) {
 	}
 	rapid.Check(t, func(t *rapid.T) {
 		src, exp, _ := gen.GenerateVariableProgram(t, true)
+		if os.Getenv("VARDUMP_EXTRA") != "" {
+			src, exp, _ = gen.GenerateRecursionOverloadProgram(t, true)
+		}
 		os.WriteFile(os.Getenv("VARDUMP")+".ddp", []byte(src), 0o644)
 		os.WriteFile(os.Getenv("VARDUMP")+".expect", []byte(exp), 0o644)
 	})
